@@ -11,6 +11,9 @@ Check(o) ==
   LET want == CandidateSeqs(ToSet(o.ms), ToSet(o.blanks))  got == ToSet(o.seqs) IN
   /\ IF got = want THEN TRUE ELSE Reject(o, "candidate-sequences", want \ got)
   /\ IF Len(o.seqs) = Cardinality(got) THEN TRUE ELSE Reject(o, "duplicate-sequence", Len(o.seqs))
+  \* the coverage filter (relative_match_len = relnum / relden): the candidate sequences the engine actually expanded
+  /\ IF o.filtered = 0 \/ ToSet(o.admitted) = AdmittedSeqs(ToSet(o.ms), ToSet(o.blanks), o.relnum, o.relden)
+     THEN TRUE ELSE Reject(o, "coverage-filter", AdmittedSeqs(ToSet(o.ms), ToSet(o.blanks), o.relnum, o.relden))
 ASSUME TLCSet(7, Obs)
 Init == LET O == TLCGet(7) IN l \in 1..Len(O) /\ Check(O[l])
 Next == UNCHANGED l
